@@ -278,7 +278,8 @@ def check_c04(run):
             rows += [dict(resp=c["L"], responses=c["responses"]) for c in resps]
         cp = run.path("c04-%d.ndjson" % k); write_ndjson(cp, rows)
         sp = run.path("c04-%d.json" % k)
-        run.sh([vh, "param-materialise", "-cases", cp, "-out", sp])
+        # where the media type of form parameters is declared (Request!MediaDecl): odd shards inherit it from the document
+        run.sh([vh, "param-materialise", "-cases", cp, "-out", sp, "-media", "document" if k % 2 else "operation"])
         drv, err = build_server(run, "c%d" % k, sp, client=True)
         if not drv:
             return [dict(ev="Server", ok=False, err=err[:1500], shard=k)], 0
